@@ -79,6 +79,23 @@ func TestVerifC19Collector(t *testing.T) {
 	rep := kit.NewReport("C19", "collector")
 	defer rep.Write()
 	rep.SetRule("real telemetry.Collector with http.DefaultTransport replaced by a recorder; seeded cases: Enabled=false with an interval from every class (1..5 ms, 0, negative, the 24 h default, huge) (Start, Stop) => zero requests when Stop() has returned; every third enabled case finds <data dir>/.instance_id in an unusual state (directory, non-empty directory, symlink into a missing directory, symlink loop, empty file, id file of an earlier run with / without trailing newline): New may refuse (the collector stays off) — if it returns a collector, that one is run and judged like any other and an id of an earlier run must be the one reported; Enabled=true with an interval of 1..5 ms => wait for N reports, Stop(), judge every report (whitelisted JSON keys, documented endpoint, no unknown header, no needle from the data-directory path; recorder answering 200 / 500 / network error); instance id: version-4 UUID on a fresh directory, stable across collectors on the same directory, different across directories.  non-trivial = collector ran Start..Stop (enabled: >= N reports judged); distinct = enabled x interval x recorder answer x case number")
+	// facts of the environment the collectors run in are needles of every
+	// judged report (kit/c19host.go), and so are the values of identity /
+	// secret carrying environment variables planted here
+	host := kit.NewC19HostFacts(kit.C19LegitStrings(""))
+	host.AddThisProcess()
+	plants := kit.C19EnvPlants(kit.NewRNG(kit.Mix(kit.Seed(), 0xC19E)))
+	for k, v := range plants {
+		if o, had := os.LookupEnv(k); had {
+			defer os.Setenv(k, o)
+		} else {
+			defer os.Unsetenv(k)
+		}
+		os.Setenv(k, v)
+	}
+	host.AddEnv(plants)
+	rep.Assume(host.Describe())
+	rep.Count("host_environment_needles_searched", int64(len(host.Needles)))
 	rec := &kit.C19Recorder{}
 	old := http.DefaultTransport
 	http.DefaultTransport = rec
@@ -179,7 +196,9 @@ func TestVerifC19Collector(t *testing.T) {
 		} else {
 			ex := kit.C19Expect{Version: version, GOOS: runtime.GOOS, GOARCH: runtime.GOARCH, FreshInstance: true}
 			for _, rq := range reqs {
-				issues, _ := kit.C19Judge(rq, map[string]string{"data directory": needle}, ex)
+				needles := map[string]string{"data directory": needle}
+				host.Merge(needles)
+				issues, _ := kit.C19Judge(rq, needles, ex)
 				rep.Count("reports_judged", 1)
 				for _, is := range issues {
 					r := map[string]any{"request": rq}
